@@ -437,12 +437,66 @@ def check_catalogue(_case):
     return {"v": out, "nt": True, "cnt": {"catalogue_checks": n}}
 
 
+def check_instances(_case):
+    """The flags a protocol layer reads from a function *object* agree with the declaration (class = YAML, see catalogue)."""
+    out = []
+    n = 0
+    for cls in function_classes():
+        try:
+            obj = cls()
+        except Exception as exc:  # noqa: BLE001
+            out.append(("C03|instance-default-construction-raises", {"function": cls.__name__, "error": repr(exc)[:200]}))
+            continue
+        for attr, want in (("stream", cls._stream), ("function", cls._function), ("to_host", cls._to_host), ("to_equipment", cls._to_equipment),
+                           ("has_reply", cls._has_reply), ("is_reply_required", cls._is_reply_required), ("is_multi_block", cls._is_multi_block)):
+            n += 1
+            got = getattr(obj, attr, "<missing>")
+            if got != want or type(got) is not type(want):
+                out.append((f"C03|instance-flag-differs-from-declaration|{attr}", {"function": cls.__name__, "object": repr(got), "declared": repr(want)}))
+    for sig, d in out:
+        d["case"] = {"kind": "instances"}
+    return {"v": out, "nt": True, "cnt": {"instance_flag_checks": n}}
+
+
+def check_isolation(case):
+    """Customising one container (update) leaves the catalogue seen by every other container - existing or created later - unchanged."""
+    out = []
+    cls = getattr(F, case["cls"])
+    older = secsgem.secs.functions.StreamsFunctions()
+    mine = secsgem.secs.functions.StreamsFunctions()
+    custom = type(cls.__name__ + "Custom", (cls,), {"__doc__": cls.__doc__})
+    try:
+        mine.update(custom)
+        if mine.function(cls._stream, cls._function) is not custom:
+            out.append(("C03|update-not-visible-in-own-container", {"case": case}))
+        newer = secsgem.secs.functions.StreamsFunctions()
+        for label, cont in (("older", older), ("newer", newer)):
+            got = cont.function(cls._stream, cls._function)
+            if got is not cls:
+                out.append((f"C03|update-leaks-into-{label}-container", {"case": case, "got": getattr(got, "__name__", None)}))
+    except Exception as exc:  # noqa: BLE001
+        out.append(("C03|update-raises", {"case": case, "error": repr(exc)[:200]}))
+    finally:
+        # keep the worker's own catalogue intact whatever the library did (a leak is reported above, not propagated)
+        for cont in (older, streams_functions()):
+            try:
+                if cont.function(cls._stream, cls._function) is not cls:
+                    cont.update(cls)
+            except Exception:  # noqa: BLE001
+                pass
+    return {"v": out, "nt": True}
+
+
 def check_case(case):
-    return {"value": check_value, "plain": check_plain_ints, "catalogue": check_catalogue}[case["kind"]](case)
+    return {"value": check_value, "plain": check_plain_ints, "catalogue": check_catalogue, "instances": check_instances,
+            "isolation": check_isolation}[case["kind"]](case)
 
 
 def cases(ctx):
     yield {"kind": "catalogue"}
+    yield {"kind": "instances"}
+    for cls in function_classes():
+        yield {"kind": "isolation", "cls": cls.__name__}
     for cls in function_classes():
         name = cls.__name__
         tree = c19.parse_text(cls._data_format) if isinstance(cls._data_format, str) else None
